@@ -3,7 +3,7 @@
   depth is bounded by the number of heap nodes not yet on the path; fuel `|heap| + 1` is enough
   for every graph, and more fuel never changes a rendering.
 -/
-import AttrsModel.Spec.C11
+import AttrsModel.Spec.C11Base
 
 namespace Attrs.C11
 
